@@ -186,6 +186,17 @@ func (r *c17run) observation() string {
 	return fmt.Sprintf("%s exit=%d err=%q fds=%v", statusName(r.res.Status), r.res.ExitStatus, r.res.Error, slots)
 }
 
+// cntBefore counts the steps of run who among order[:k].
+func cntBefore(order []int, k, who int) int {
+	n := 0
+	for _, o := range order[:k] {
+		if o == who {
+			n++
+		}
+	}
+	return n
+}
+
 func c17abort(rs []*c17run) {
 	for _, r := range rs {
 		if r.started {
@@ -235,13 +246,19 @@ func c17drop() {
 
 func init() {
 	registry["C17"] = func(tier string) *mc.Spec {
-		pairs := [][2]string{{"ptrace", "ptrace"}, {"ptrace", "unshare"}, {"ptrace", "containerA"}, {"unshare", "unshare"}, {"unshare", "containerA"}, {"containerA", "containerB"}}
+		pairs := [][]string{{"ptrace", "ptrace"}, {"ptrace", "unshare"}, {"ptrace", "containerA"}, {"unshare", "unshare"}, {"unshare", "containerA"}, {"containerA", "containerB"}}
+		// thorough: three concurrent runs, every merge of their 3+3+3 phases (1680 per triple)
+		triples := [][]string{{"ptrace", "unshare", "containerA"}, {"ptrace", "ptrace", "unshare"}, {"containerA", "containerB", "ptrace"}, {"unshare", "unshare", "containerA"}}
+		families := []string{"pair-merge", "same-environment", "signal-of-a-finished-run", "program-file-busy-through-another-launch"}
+		if tier == "thorough" {
+			families = append(families, "triple-merge")
+		}
 		spec := &mc.Spec{
 			Level: "exploration",
 			Rule: "pairs of concurrent runs over {ptrace, namespace, container A, container B} (thorough: also triples with the third run interleaved at every position), each cut into three gated phases; every merge of the phase sequences (20 per pair) is executed; each run has its own descriptor list (stdin pipe + 1/2 private files), exit code and output file; " +
 				"plus calls on one environment issued while another call on it is in flight (Execve behind Execve; Ping, Open, Reset behind a long Execve, incl. longer than the ping timeout). plus the signal of a finished run: the SIGKILL of a run's cancellation goroutine (ptrace tracer, namespace runner) released at once / after the run returned / once a later run's program exists under the finished run's process id (helper in a private pid namespace, pid space of the namespace made small through its pid_max so that ids come round within a few dozen forks) — in every schedule the code admits the later run ends as alone. Differential oracle: verdict, exit value and the program's descriptor table (every descriptor must be one of the run's own files) equal what the same run observes alone. " +
 				"non-trivial: the merge actually overlaps the two runs; distinct = (pair, merge, observations)",
-			Bound:       map[string]any{"phases_per_run": 3, "merges_per_pair": 20},
+			Bound:       map[string]any{"phases_per_run": 3, "merges_per_pair": 20, "merges_per_triple(thorough)": 1680, "triples(thorough)": 4},
 			Assumptions: []string{"schedules are exhaustive at phase granularity; thread-level interleavings inside fork…exec are not controlled (the fork lock is observed through descriptor tables only)"},
 			SplitDepth:  2,
 			Workers:     4,
@@ -250,7 +267,7 @@ func init() {
 		spec.Init = func() error { devnull(); return nil }
 		spec.Fini = func() { c17drop(); cleanupTmp() }
 		spec.Body = func(x *mc.X) {
-			fam := x.Pick("family", "pair-merge", "same-environment", "signal-of-a-finished-run")
+			fam := x.Pick("family", families...)
 			if fam == "same-environment" {
 				c17sameEnv(x)
 				return
@@ -259,35 +276,40 @@ func init() {
 				c17late(x)
 				return
 			}
-			pair := pairs[x.Choose(len(pairs), "pair")]
-			// a merge = which run performs each of the six steps (three A's, three B's)
+			if fam == "program-file-busy-through-another-launch" {
+				c17execBusy(x)
+				return
+			}
+			sets := pairs
+			if fam == "triple-merge" {
+				sets = triples
+			}
+			pair := sets[x.Choose(len(sets), "runs")]
+			n := len(pair)
+			// a merge = which run performs each of the 3n steps (three per run)
 			var order []int
-			na, nb := 0, 0
-			for len(order) < 6 {
-				switch {
-				case na == 3:
-					order = append(order, 1)
-					nb++
-				case nb == 3:
-					order = append(order, 0)
-					na++
-				default:
-					c := x.Choose(2, "next")
-					order = append(order, c)
-					if c == 0 {
-						na++
-					} else {
-						nb++
+			cnt := make([]int, n)
+			for len(order) < 3*n {
+				var open []int
+				for i := 0; i < n; i++ {
+					if cnt[i] < 3 {
+						open = append(open, i)
 					}
 				}
+				c := open[0]
+				if len(open) > 1 {
+					c = open[x.Choose(len(open), "next")]
+				}
+				order = append(order, c)
+				cnt[c]++
 			}
-			x.Note("pair", pair)
+			x.Note("runs", pair)
 			x.Note("merge", order)
 			if x.Dry() {
 				return
 			}
 			mk := func(i int, kind string) (*c17run, error) {
-				r := &c17run{kind: kind, tag: fmt.Sprintf("%c", 'A'+i), exit: 11 + i, nfiles: 1 + i}
+				r := &c17run{kind: kind, tag: fmt.Sprintf("%c", 'A'+i), exit: 11 + i, nfiles: 1 + i%2}
 				if strings.HasPrefix(kind, "container") {
 					idx := 0
 					if kind == "containerB" {
@@ -302,8 +324,8 @@ func init() {
 				return r, r.prepare()
 			}
 			// reference: each run alone
-			var alone [2]string
-			for i := 0; i < 2; i++ {
+			alone := make([]string, n)
+			for i := 0; i < n; i++ {
 				r, err := mk(i, pair[i])
 				if err != nil {
 					x.Failf("C17/harness", "%v", err)
@@ -320,8 +342,8 @@ func init() {
 				os.RemoveAll(r.dir)
 			}
 			// the merge
-			var rs [2]*c17run
-			for i := 0; i < 2; i++ {
+			rs := make([]*c17run, n)
+			for i := 0; i < n; i++ {
 				r, err := mk(i, pair[i])
 				if err != nil {
 					x.Failf("C17/harness", "%v", err)
@@ -329,8 +351,12 @@ func init() {
 				}
 				rs[i] = r
 			}
-			defer func() { os.RemoveAll(rs[0].dir); os.RemoveAll(rs[1].dir) }()
-			phase := [2]int{}
+			defer func() {
+				for _, r := range rs {
+					os.RemoveAll(r.dir)
+				}
+			}()
+			phase := make([]int, n)
 			for _, who := range order {
 				r := rs[who]
 				var err error
@@ -343,27 +369,34 @@ func init() {
 					err = r.finish()
 				}
 				if err != nil {
-					c17abort(rs[:])
-					x.Failf(fmt.Sprintf("C17/concurrent-run-stuck/%s+%s", pair[0], pair[1]), "pair %v merge %v: run %d phase %d: %v", pair, order, who, phase[who], err)
+					c17abort(rs)
+					x.Failf(fmt.Sprintf("C17/concurrent-run-stuck/%s", strings.Join(pair, "+")), "runs %v merge %v: run %d phase %d: %v", pair, order, who, phase[who], err)
 					c17drop()
 					return
 				}
 				phase[who]++
 			}
-			overlap := !(fmt.Sprint(order) == "[0 0 0 1 1 1]" || fmt.Sprint(order) == "[1 1 1 0 0 0]")
-			for i := 0; i < 2; i++ {
+			// the merge overlaps the runs unless every run completes before the next one starts
+			overlap := false
+			for k := 1; k < len(order); k++ {
+				if order[k] != order[k-1] && cntBefore(order, k, order[k-1]) < 3 {
+					overlap = true
+				}
+			}
+			for i := 0; i < n; i++ {
 				got := rs[i].observation()
 				if overlap {
 					x.Distinct(fmt.Sprint(pair, order, i, got))
 				}
+				others := strings.Join(append(append([]string{}, pair[:i]...), pair[i+1:]...), "+")
 				if got != alone[i] {
-					x.Failf(fmt.Sprintf("C17/differs-from-alone/%s-with-%s", pair[i], pair[1-i]), "pair %v merge %v: run %d (%s) observed\n   %s\n alone it observes\n   %s", pair, order, i, pair[i], got, alone[i])
+					x.Failf(fmt.Sprintf("C17/differs-from-alone/%s-with-%s", pair[i], others), "runs %v merge %v: run %d (%s) observed\n   %s\n alone it observes\n   %s", pair, order, i, pair[i], got, alone[i])
 				}
 				if strings.Contains(got, "FOREIGN") {
-					x.Failf(fmt.Sprintf("C17/foreign-descriptor/%s-with-%s", pair[i], pair[1-i]), "pair %v merge %v: run %d received a descriptor that is not its own: %s", pair, order, i, got)
+					x.Failf(fmt.Sprintf("C17/foreign-descriptor/%s-with-%s", pair[i], others), "runs %v merge %v: run %d received a descriptor that is not its own: %s", pair, order, i, got)
 				}
 			}
-			x.Outcome(fmt.Sprintf("%s+%s:%v", pair[0], pair[1], !x.Failed()))
+			x.Outcome(fmt.Sprintf("%s:%v", strings.Join(pair, "+"), !x.Failed()))
 		}
 		return spec
 	}
